@@ -71,7 +71,8 @@ def respond {κ ω : Type} (cfg : ConnCfg κ ω) (req : Request) (keepAlive : Bo
     | some h =>
       let hs : Headers := [⟨hDate, cfg.now⟩, ⟨hServer, hServerValue⟩,
         ⟨hConnection, if keepAlive then keepAliveValue else closeValue⟩]
-      some (completeResponse cfg.now req ⟨http11, 204, h.cors.setHeaders hs, []⟩)
+      -- a 204 carries no Content-Length (RFC 9110 §8.6); it echoes the request's version
+      some ⟨req.version, 204, h.cors.setHeaders hs, []⟩
     | none => some (completeResponse cfg.now req (errorResponse 404))
   else
     match handler with
